@@ -93,11 +93,27 @@ class _Collector(object):
         }
 
 
+class TaskWatchdog(HarnessError):
+    pass
+
+
+def _task_alarm(signum, frame):
+    raise TaskWatchdog("task exceeded its wall-clock watchdog")
+
+
 def run_task(args):
     pid, clause_index, shard, nshards, tier, seed, examples = args
     mod = load_property(pid)
     clause = mod.CLAUSES[clause_index]
     col = _Collector(clause)
+    import signal
+    limit = int(os.environ.get("VERIF_TASK_WATCHDOG",
+                               "900" if tier == "quick" else "14400"))
+    try:
+        signal.signal(signal.SIGALRM, _task_alarm)
+        signal.alarm(limit)
+    except ValueError:
+        pass
     try:
         if clause.enumerate is not None:
             _run_enumeration(clause, col, tier, shard, nshards)
@@ -106,6 +122,11 @@ def run_task(args):
     except BaseException:
         if col.failure is None and col.harness is None:
             col.harness = traceback.format_exc()
+    finally:
+        try:
+            signal.alarm(0)
+        except ValueError:
+            pass
     return col.result()
 
 
